@@ -46,6 +46,7 @@ def _mk_network(case, names, msg_key):
     ctx = {"cur": None, "k": 0}
     lat = case.get("lat") or [1_000_000]
     latmap = case.get("latmap") or {}
+    linklat = case.get("linklat") or {}      # "src>dst" (node indices) -> ns: a slow / fast directed link
 
     class Chosen(LatencyDistribution):
         def __init__(self):
@@ -57,6 +58,11 @@ def _mk_network(case, names, msg_key):
             ctx["k"] = k + 1
             ns = lat[k % len(lat)]
             if ev is not None:
+                if linklat:
+                    m = ev.context.get("metadata", {})
+                    lk = f"{str(m.get('source', '?'))[1:]}>{str(m.get('destination', '?'))[1:]}"
+                    if lk in linklat:
+                        ns = linklat[lk]
                 key = msg_key(ev)
                 if key in latmap:
                     ns = latmap[key]
@@ -145,8 +151,11 @@ class C12(core.Property):
             "jitter draws generated; non-trivial = some Accept was sent); mpaxos / fpaxos (MultiPaxosNode / FlexiblePaxosNode, 2-8 "
             "start/submit calls on random nodes; fpaxos: (q1,q2) with q1+q2>n, mostly asymmetric in both directions and tight (q1+q2=n+1), n 3-5, "
             "half of the cases the take-over scenario: a leader cut off with exactly q1 (or q1+-1, q2-1, q2) nodes on its side runs phase 1 and proposes "
-            "inside the partition, heal, a node of the other side takes over with another command for the same slot); election (LeaderElection x Bully/Ring/Randomized, "
-            "uniform and non-uniform member views, add_member, partitions); lock (4-60 acquire/try/release/expire calls on 1-3 locks, "
+            "inside the partition, heal, a node of the other side takes over with another command for the same slot); slow-prepare take-over (mpaxos 70% / fpaxos: "
+            "the new leader's link to the old leader is 4-45x slower than the others, commands submitted to the old leader from 2 ms before to `slow` ms after the instant it "
+            "promises and to the new leader around the instant it leads, optional later start() rounds); election (LeaderElection x Bully/Ring/Randomized, "
+            "uniform member views; join scenario: a node unknown to the group (mostly the highest id) knows everybody, runs its first election late, add_member around that "
+            "instant, one directed link out of the old leader 60-350 ms slow against heartbeats every 10-60 ms); lock (4-60 acquire/try/release/expire calls on 1-3 locks, "
             "tokens at/around the live token, max_waiters 0-2; non-trivial = >= 2 grants). distinct = distinct case content")
     trusted_base = [
         "hv/props/c12.py adapters: per-node handle_event wrappers that record delivered events, returned messages and node state",
@@ -171,10 +180,24 @@ class C12(core.Property):
         "phase-1 rule (mpaxos|fpaxos/leader/without-phase1-quorum): when start() or a delivered Promise turns the public is_leader of a node from false "
         "to true, 1 (its own start) + the number of Promise messages for that ballot number delivered to it so far is >= q1 (responses counted as the "
         "implementation counts them: per message, not per distinct sender)",
+        "deposed-leader rule (mpaxos|fpaxos/leader/still-leader-after-promising-higher-ballot, …/deposed-leader-assigns-slot): a node that answers a Prepare "
+        "with a Promise (recorded message) has public is_leader false afterwards; from that promise until a phase-1 response leaves it leader again "
+        "(is_leader false -> true, or >= q1 responses for that ballot number) it neither makes its public log grow inside submit() nor sends an Accept. "
+        "Leadership kept across a delivered Accept / regained through promises for an older ballot number (both true of the pinned tree) is not judged by this rule",
+        "agreement trigger (mpaxos|fpaxos/agreement/two-values/<trigger>): the two-values signature is suffixed with how the second command reached the slot, read from "
+        "the recorded Accept and Promise messages: value-never-proposed-for-slot | one-ballot-two-proposers | after-leader-change-ignoring-promise-logs | "
+        "after-leader-change; no suffix = one node proposed both commands for the slot under one ballot (none of the pinned tree's mechanisms)",
+        "election per-node rules: (current_term, current_leader) of a node is read before and after every handler invocation; a delivered LeaderHeartbeat whose "
+        "term is below the receiver's current_term must change neither (election/leader/changed-within-term-by-stale-heartbeat); the leader may change inside an "
+        "unchanged term only on a heartbeat stamped with at least that term (election/leader/changed-within-term-without-heartbeat). Two nodes claiming one term number "
+        "(per-node term counters) stays with election/one-leader-per-term/two-leaders when member views differ or change (add_member) during the run; with one member set "
+        "given to every node and no add_member the signature is election/one-leader-per-term/two-leaders-with-identical-static-views (not a known finding: every strategy of "
+        "the pinned tree then only ever announces max(members); 0 occurrences in 20 000 generated uniform schedules; not machine-proved)",
     ]
     hypotheses = ["flexible_quorums_intersect: n < q1 + q2, quorums are duplicate-free lists of node indices < n",
                   "flexible_paxos_agreement: n < q1 + q2 and 0 < q2 (FlexiblePaxosNode enforces q1 + q2 > n; q2 = 0 would make every decision vacuous)",
-                  "paxos_validity: 0 < q2"]
+                  "paxos_validity: 0 < q2",
+                  "MP.deposed_leader_never_assigns / MP.deposed_judge_silent: every action's node index is < n (the harness has nodes 0..n-1 only)"]
     partial_theorems = {
         "slot_agreement": "Multi-Paxos / Flexible-Paxos slot agreement is REFUTED for the pinned tree (slot_agreement_current_false, "
                           "flexible_slot_agreement_current_false, slot_agreement_full_current_false); no repaired Multi-Paxos variant is modelled: "
@@ -193,7 +216,11 @@ class C12(core.Property):
         k = i % 10
         if k in (0, 5):
             return self.gen_lock(rng, tier)
-        if k in (1, 6):
+        if i % 20 == 18:
+            return self.gen_election_join(rng, tier)
+        if k == 6:
+            return self.gen_takeover_slow_prepare(rng, tier)
+        if k == 1:
             return self.gen_mpaxos(rng, tier)
         if k == 3:
             return self.gen_fpaxos(rng, tier)
@@ -533,6 +560,51 @@ class C12(core.Property):
         return {"family": "fpaxos", "n": n, "ops": ops, "lat": lat, "hb_ms": rng.choice([50, 1000, 1000]),
                 "q1": q1, "q2": q2, "end_ms": t // ms + rng.choice([60, 300, 2500])}
 
+    def gen_takeover_slow_prepare(self, rng, tier):
+        """Multi-Paxos / Flexible Paxos take-over over one slow directed link: node `old` leads; node `new`
+        starts phase 1 while its link to `old` is slower than its links to the other acceptors, so (whenever
+        q1 allows) `new` reaches its promise quorum without `old`, and its Prepare reaches `old` later than
+        its heartbeat would on a fast link.  Commands are submitted to `old` around the instant it promises
+        (before, at, inside and after the window that ends with the new leader's heartbeat) and to `new`
+        around the instant it becomes leader."""
+        ms = 1_000_000
+        n = rng.choice([3, 3, 4, 5])
+        flex = rng.random() < 0.3
+        old = rng.randrange(n)
+        new = rng.choice([i for i in range(n) if i != old])
+        slow = rng.choice([4, 6, 10, 20, 45])
+        linklat = {f"{new}>{old}": slow * ms}
+        if rng.random() < 0.3:
+            a, b = rng.sample(range(n), 2)
+            linklat.setdefault(f"{a}>{b}", rng.choice([2, 3, 8, 30]) * ms)
+        ops, c, t = [], 1, 0
+        if rng.random() < 0.7:
+            ops.append({"t": t, "op": "submit", "node": old, "cmd": c}); c += 1
+        t += rng.choice([0, 1]) * ms
+        ops.append({"t": t, "op": "start", "node": old})
+        t1 = t + 2 * slow * ms + rng.choice([10, 20, 60]) * ms        # `old` is established, its first slots are committed
+        ops.append({"t": t1, "op": "start", "node": new})
+        t_prom = t1 + slow * ms                                       # the Prepare of `new` reaches `old`
+        for _ in range(rng.choice([1, 1, 2, 3])):
+            dt = rng.choice([-2 * ms, -ms, -1, 0, 1, ms // 2, ms, ms + ms // 2, 2 * ms - 1, 2 * ms, 3 * ms, slow * ms])
+            ops.append({"t": max(t1, t_prom + dt), "op": "submit", "node": old, "cmd": c}); c += 1
+        for _ in range(rng.choice([0, 1, 1, 2])):
+            dt = rng.choice([0, ms, 2 * ms, 2 * ms + 1, 3 * ms, slow * ms + ms])
+            ops.append({"t": t1 + dt, "op": "submit", "node": new, "cmd": c}); c += 1
+        t_end = t_prom + 2 * slow * ms + 5 * ms
+        if rng.random() < 0.6:
+            # later phase-1 rounds: pending and uncommitted commands get (re)proposed
+            for _ in range(rng.choice([1, 2])):
+                t_end += rng.choice([5, 20, 50]) * ms
+                ops.append({"t": t_end, "op": "start", "node": rng.choice([old, new, rng.randrange(n)])})
+            t_end += 2 * slow * ms + 10 * ms
+        ops.sort(key=lambda o: o["t"])
+        case = {"family": "fpaxos" if flex else "mpaxos", "n": n, "ops": ops, "lat": [ms], "linklat": linklat,
+                "hb_ms": rng.choice([1000, 1000, 1000, 50]), "end_ms": t_end // ms + rng.choice([5, 40])}
+        if flex:
+            case["q1"], case["q2"] = self._fp_quorums(rng, n)
+        return case
+
     def impl_fpaxos(self, case):
         return self.impl_mpaxos(case)
 
@@ -712,8 +784,10 @@ class C12(core.Property):
         """observables: submitted commands, every node's committed prefix after every step (public
         `node.log`), resolved futures, and for the commit rule: Accept messages sent (`prop`), Accepts
         answered with Accepted (`acc`), Accepted messages delivered together with the receiver's public
-        commit index before and after (`ack`), and for phase 1: start() calls and delivered Promises with the
-        receiver's public is_leader before and after (`prom`)"""
+        commit index before and after (`ack`), for phase 1: start() calls and delivered Promises with the
+        receiver's public is_leader before and after (`prom`), and for the deposed-leader rule: Prepares
+        answered with a Promise together with the public is_leader afterwards (`pled`), the log entries such a
+        promise carries (`pcar`), and submit() calls that made the node's public log grow (`asg`)"""
         n = case["n"]
         flex = case["family"] == "fpaxos"
         q1 = case.get("q1", n // 2 + 1) if flex else n // 2 + 1
@@ -722,6 +796,7 @@ class C12(core.Property):
         fid = 0
         ci_of = [0] * n                # last observed log.commit_index per node
         ldr_of = ["0"] * n             # last observed is_leader per node
+        len_of = [0] * n               # last observed length of the public log per node
         accepted = {}                  # (ballot, slot, cmd) -> nodes that hold / accepted it
         k, N = 0, len(impl_out)
         while k < N:
@@ -745,11 +820,21 @@ class C12(core.Property):
             if act[0] == "submit":
                 body.append(f"sub {fid} {act[2]}")
                 fid += 1
+                if len(ents) > len_of[node]:
+                    body.append(f"asg {node} {len(ents)}")      # the node assigned a slot to the command itself
+            elif act[0] == "prepare":
+                for e in sent:
+                    if e[1] == "Promise":
+                        body.append(f"pled {node} {e[3]} {ldr}")   # promised another node's ballot; is_leader afterwards
+                        if e[4] != "-":
+                            for sl, ent in enumerate(e[4].split(","), 1):
+                                body.append(f"pcar {e[2]} {e[3]} {sl} {ent.split(':')[1]}")
             elif act[0] == "start":
                 body.append(f"prom {node} {bal.split('.')[0]} {ldr_of[node]} {ldr}")     # its own promise
             elif act[0] == "promise":
                 body.append(f"prom {node} {act[2]} {ldr_of[node]} {ldr}")
             ldr_of[node] = ldr
+            len_of[node] = len(ents)
             seen = set()
             for e in sent:
                 if e[1] == "Accept" and (e[3], e[4], e[5]) not in seen:
@@ -813,6 +898,47 @@ class C12(core.Property):
                 "hb_ms": rng.choice([10, 30, 60]),
                 "lat": [rng.choice(pool) * 1_000_000 for _ in range(rng.choice([5, 11, 23]))],
                 "draws": [rng.randint(1, 1000) for _ in range(7)], "end_ms": rng.choice([300, 600, 1000])}
+
+    def gen_election_join(self, rng, tier):
+        """a leader change by `add_member` while the old leader's heartbeats are still in flight: the nodes
+        of a group know each other, a node with a higher (sometimes lower) id knows everybody but is unknown
+        to (some of) them, runs its first election late and announces itself; one directed link out of the old
+        leader is much slower than the heartbeat interval, so heartbeats stamped with the old term arrive
+        after the receiver has moved on."""
+        ms = 1_000_000
+        n = rng.choice([3, 3, 4, 5])
+        strat = rng.choice(["bully", "bully", "bully", "ring", "rand"])
+        joiner = n - 1 if rng.random() < 0.8 else rng.randrange(n)
+        group = [i for i in range(n) if i != joiner]
+        members = []
+        for i in range(n):
+            m = (list(range(n)) if rng.random() < 0.7 else [joiner]) if i == joiner else group[:]
+            rng.shuffle(m)
+            members.append(m)
+        old = max(group)                                  # Bully / Ring elect the highest id of the group
+        slow_to = rng.choice([i for i in group if i != old] or [old])
+        slow = rng.choice([60, 120, 200, 350])
+        linklat = {f"{old}>{slow_to}": slow * ms}
+        if rng.random() < 0.3:
+            a, b = rng.sample(range(n), 2)
+            linklat.setdefault(f"{a}>{b}", rng.choice([20, 80, 150]) * ms)
+        timeout = [rng.choice([40, 50, 80]) for _ in range(n)]
+        timeout[slow_to] = rng.choice([80, 150, slow + 200, slow + 400])
+        t_join = rng.choice([slow + 120, slow + 200, 2 * slow + 100, 300])
+        timeout[joiner] = t_join
+        ops = []
+        for i in group:
+            if rng.random() < 0.5:
+                ops.append({"t": rng.choice([1, t_join - 20, t_join - 1, t_join + 5, t_join + slow // 2]) * ms,
+                            "op": "add", "node": i, "m": joiner})
+        if len(members[joiner]) == 1:
+            for i in group:
+                ops.append({"t": (t_join - rng.choice([1, 30, 100])) * ms, "op": "add", "node": joiner, "m": i})
+        ops.sort(key=lambda o: o["t"])
+        return {"family": "election", "n": n, "strategy": strat, "members": members, "ops": ops,
+                "timeout_ms": timeout, "hb_ms": rng.choice([10, 30, 60]), "lat": [ms], "linklat": linklat,
+                "draws": [rng.randint(1, 1000) for _ in range(7)],
+                "end_ms": t_join + 2 * slow + rng.choice([100, 300])}
 
     def impl_election(self, case):
         import happysimulator.components.consensus.election_strategies as es
@@ -959,12 +1085,28 @@ class C12(core.Property):
         return (f"election {case['strategy']}", body + self.schedule(case))
 
     def judge_election(self, case, impl_out):
+        """observables: `rep node term leader` = the public (current_term, current_leader) of a node after a
+        handler ran on it; `st node lhb|other hterm t0 l0 t1 l1` = the same pair before and after one handler
+        invocation, and the term a delivered LeaderHeartbeat was stamped with"""
         body = []
+        last = {}                       # node -> (term, leader) last reported (initially term 0, no leader)
+        act = None
         for l in impl_out:
             t = l.split()
-            if t[0] == "node" and t[3] != "-":
-                body.append(f"rep {t[1]} {t[5]} {t[3]}")
-        return ("judge-election", body)
+            if t[0] == "step":
+                act = t[2:]
+            elif t[0] == "node":
+                t0, l0 = last.get(t[1], ("0", "-"))
+                if act is not None:
+                    hb = act[0] == "lhb"
+                    body.append(f"st {t[1]} {'lhb' if hb else 'other'} {act[3] if hb else 0} {t0} {l0} {t[5]} {t[3]}")
+                    act = None
+                last[t[1]] = (t[5], t[3])
+                if t[3] != "-":
+                    body.append(f"rep {t[1]} {t[5]} {t[3]}")
+        views = [sorted(set(m)) for m in case["members"]]
+        static = all(v == views[0] for v in views) and not any(o["op"] == "add" for o in case["ops"])
+        return ("judge-election " + ("identical-static" if static else "mixed"), body)
 
     # ------------------------------------------------------------------ distributed lock
     def gen_lock(self, rng, tier):
@@ -1173,6 +1315,13 @@ THEOREMS = [
     "HappyModel.C12.MP.leader_needs_phase1_quorum",
     "HappyModel.C12.MP.leader_judge_silent",
     "HappyModel.C12.MP.leader_on_phase2_quorum_violates_spec",
+    "HappyModel.C12.MP.promise_clears_leadership",
+    "HappyModel.C12.MP.deposed_leader_never_assigns",
+    "HappyModel.C12.MP.deposed_judge_silent",
+    "HappyModel.C12.MP.deposed_leader_violates_spec",
+    "HappyModel.C12.El.stale_heartbeat_does_not_change_leader",
+    "HappyModel.C12.El.election_steps_judge_silent",
+    "HappyModel.C12.El.stale_heartbeat_adopted_violates_spec",
     "HappyModel.C12.El.election_two_leaders_one_term",
     "HappyModel.C12.El.election_one_leader_per_term_current_false",
 ]
